@@ -30,9 +30,9 @@ PROP = {
     "rule": "sa (middleware called directly): the full matrix handler result {nil, errors.New, sentinel, fmt %w-wrapped, pkg/errors-wrapped, "
             "custom Is(), *multierror.Error of 1..3 parts} x filter {PoisonQueue, always, never, errors.Is(sentinel), text needle hit/miss/empty} "
             "x poison publisher {accept, error} x outputs {0, 2} x metadata {empty, random incl. non-UTF-8, all four poison keys present, "
-            "some present} (x12 random refills in the thorough tier), handler metadata writes in a third of the cases; "
+            "some present} (x40 random refills in the thorough tier), handler metadata writes in a third of the cases; "
             "rt (inside a running message.Router, scripted subscriber/publishers, middleware router-level and handler-level): per filter "
-            "family and level one router with a stream of 40 (quick) / 400 (thorough) messages, poison publisher failing from the k-th "
+            "family and level one router with a stream of 40 (quick) / 1200 (thorough) messages, poison publisher failing from the k-th "
             "message on or at random, the Router's own publisher failing in a quarter of the cases; settlement read from Acked()/Nacked(), "
             "the returned (events, err) read by an observer middleware outside the poison middleware. Non-trivial = the handler failed; "
             "distinct = distinct (request, observation) pairs.",
